@@ -30,6 +30,8 @@ def jobs(tier):
             js.append(dict(name="F:%s:r%d" % (errno.errorcode[err], nreq), err=err, nreq=nreq,
                            k=2 if (tier == "thorough" and nreq == 1 and err in (errno.ECONNRESET, errno.EINVAL)) else 1, P=1))
         js.append(dict(name="EOF:r%d" % nreq, err=None, nreq=nreq, k=1, P=1))
+    js = common.shard(js, "body", 2, lambda j: j["nreq"] == 2 or j["k"] == 2)
+    js = common.shard(js, "wm", 2, lambda j: j["nreq"] == 2 or j["k"] == 2)
     return js
 
 
